@@ -491,7 +491,13 @@ func init() {
 								continue
 							}
 							child := lc.canon(arg)
-							construct := ord.next(shortName(fn) + "(" + elemShape(info, u.Decl.Body, arg) + ")")
+							construct := shortName(fn) + "(" + elemShape(info, u.Decl.Body, arg) + ")"
+							if c.quoteOperandSite(fc, b, arg) {
+								// the operand of a quote node, however the chain is walked (recursion
+								// on v.Cells[0] under v.Type == LQuote, or a loop stepping a local)
+								construct = "quote operand"
+							}
+							construct = ord.next(construct)
 							cls := lc.classifier(child)
 							cut := fc.edgesEntailing(cls, noLCGoal)
 							blocked := map[*cfg.Block]bool{}
@@ -612,7 +618,13 @@ func init() {
 								continue
 							}
 							child := lc.canon(arg)
-							construct := ord.next(shortName(fn) + "(" + elemShape(info, u.Decl.Body, arg) + ")")
+							construct := shortName(fn) + "(" + elemShape(info, u.Decl.Body, arg) + ")"
+							if c.quoteOperandSite(fc, b, arg) {
+								// the operand of a quote node, however the chain is walked (recursion
+								// on v.Cells[0] under v.Type == LQuote, or a loop stepping a local)
+								construct = "quote operand"
+							}
+							construct = ord.next(construct)
 							// blocks that write the child's trailing comment
 							blocked := map[*cfg.Block]bool{}
 							same := false
